@@ -238,22 +238,22 @@ def gen(repo) -> str:
            "def contextName : List Char := " + lean_str(ctx_name),
            "/-- collections of `_Identifiers` intersected with the reserved names in `__init__` (sorted) -/",
            "def reservedCheckedCollections : List String := [" + ", ".join('"%s"' % c for c in sorted(checked)) + "]",
-           "/-- `Template.render_context` intersects its `**kwargs` with the reserved names -/",
+           "/-- whether `Template.render_context` intersects its `**kwargs` with the reserved names -/",
            "def renderContextChecksKwargs : Bool := " + ("true" if kw_checked else "false"),
-           "/-- … as a statement of the function body itself (not only for a context without `_with_template`) -/",
+           "/-- whether that check is a statement of the function body itself (true) or nested under a condition (false) -/",
            "def renderContextKwargsCheckUnconditional : Bool := " + ("true" if kw_unconditional else "false"),
-           "/-- `runtime._include_file` intersects its `**kwargs` with the included template's reserved names -/",
+           "/-- whether `runtime._include_file` intersects its `**kwargs` with the included template's reserved names -/",
            "def includeChecksKwargs : Bool := " + ("true" if inc_checks else "false"),
-           "/-- `write_variable_declares` iterates `sorted(to_write)`; `__M_locals` is built from `sorted(argument_declared)` -/",
+           "/-- whether `write_variable_declares` iterates `sorted(to_write)` / `__M_locals` is built from `sorted(argument_declared)` -/",
            "def declaresSorted : Bool := " + ("true" if declares_sorted else "false"),
            "def mlocalsSorted : Bool := " + ("true" if ml_sorted else "false"),
-           "/-- `visitCode` copies the declared identifiers of the block into `__M_locals` *minus* the body's arguments -/",
+           "/-- whether `visitCode` removes the body's arguments from the identifiers it copies into `__M_locals` (false: it copies all declared identifiers of the block) -/",
            "def mlocalsUpdateMinusArgs : Bool := " + ("true" if ml_minus_args else "false"),
-           "/-- `visitCallTag` removes `caller` from `callable_identifiers.declared` before the defs of the call are written -/",
+           "/-- whether `visitCallTag` removes `caller` from `callable_identifiers.declared` before the defs of the call are written -/",
            "def callDefsDropCaller : Bool := " + ("true" if drop else "false"),
-           "/-- the `DefVisitor` of `visitCallTag` descends into nested `<%call>` tags (it has no `visitCallTag` of its own) -/",
+           "/-- whether the `DefVisitor` of `visitCallTag` descends into nested `<%call>` tags: true iff it has no `visitCallTag` / `visitCallNamespaceTag` method of its own (the default traversal then enters them) -/",
            "def callDefsDescendCalls : Bool := " + ("true" if descends else "false"),
-           "/-- `Context.__getitem__` / `Context.get` decide \"bound in the context\" by key membership, whatever the value -/",
+           "/-- whether `Context.__getitem__` / `Context.get` decide \"bound in the context\" by key membership (true) or by a test on the value (false) -/",
            "def ctxGetItemByMembership : Bool := " + ("true" if getitem_membership else "false"),
            "def ctxGetByMembership : Bool := " + ("true" if get_membership else "false"),
            "", "end MakoModel.Generated.Names", ""]
